@@ -181,8 +181,15 @@ def p1_overflow_path(n_prefix, k):
 
 def proto_path(mode, readers, k):
     def path(eng, ctx):
-        which = eng.pick(2)
-        if which == 0:
+        which = eng.pick(3)
+        if which == 2:
+            good1 = ref_p1.build_readout(b"/ADN9 6534", [b"1-0:1.7.0(0001.727*kW)"])
+            good2 = ref_p1.build_readout(b"/LGF5E360", [b"1-0:32.7.0(233.9*V)"], checksum=False)
+            bad = ref_p1.build_readout(b"/ADN9 6534", [b"1-0:2.7.0(0000.000*kW)", b"1-0:32.7.0(231.9*V)"])
+            for j, pos_ in enumerate((14, 30, len(bad) - 4)[:k]):
+                bad[pos_] = sym_octet(f"x{j}")
+            s, label = good1 + bad + good2, "valid readout, readout with free octets in data and checksum, valid readout"
+        elif which == 0:
             s, label = p1_stream(eng, k)
         else:
             f = ref.build_frame([0x03], [0x21], 0x13, [0xE6, 0xE7, 0x00, 0x0F])
